@@ -93,39 +93,51 @@ def moveIndep (x y : Nat) : List (Nat × Int × Int) → M (List Nat)
       let d ← moveIndep x y rest
       return u :: d
 
-def moveDep (findOrAdd : Int → Int → Int → M Int) (x y : Nat) (done : List Nat) :
+/-- the cofactors `(v0, v1, w0, w1)` of the children `v`, `w` of an x-node w.r.t. `y`, after the
+level assertions and the complement fix-up of `v` -/
+def depCofactors (v w : Int) (y : Nat) : M (Int × Int × Int × Int) := do
+  let (iv, v0, v1) ← swapCofactor v y
+  let (iw, w0, w1) ← swapCofactor w y
+  M.assert (y ≤ iv && y ≤ iw)
+  M.assert (y = iv || y = iw)
+  let (v0, v1) := if v < 0 && y = iv then (-v0, -v1) else (v0, v1)
+  return (v0, v1, w0, w1)
+
+/-- one iteration of the third loop of `swap`: rebuild the x-node `u = (x, v, w)` that depends
+on `y`; returns the nodes to add to `xfresh` -/
+def moveDepStep (x y : Nat) (u : Nat) (v w : Int) : M (List Nat) := do
+  let m ← M.get
+  let n ← M.ofOption .key (m.tbl.succ[u]?)
+  M.assert (n.lvl = x)
+  M.assert (v ≠ 0 && w ≠ 0)
+  decref v
+  decref w
+  let (v0, v1, w0, w1) ← depCofactors v w y
+  let p ← findOrAdd y v0 w0
+  let q ← findOrAdd y v1 w1
+  M.assert (0 ≤ q)
+  M.assert (p ≠ q)
+  let lp ← lowHighLevel p
+  let lq ← lowHighLevel q
+  let fresh := (if lp = y then [p.natAbs] else []) ++ (if lq = y then [q.natAbs] else [])
+  setNode u ⟨x, p, q⟩
+  incref p
+  incref q
+  return fresh
+
+def moveDep (x y : Nat) (done : List Nat) :
     List (Nat × Int × Int) → M (List Nat × List Nat)
   | [] => pure ([], [])
   | (u, v, w) :: rest => do
-    if done.contains u then moveDep findOrAdd x y done rest else
-    let m ← M.get
-    let n ← M.ofOption .key (m.tbl.succ[u]?)
-    M.assert (n.lvl = x)
-    M.assert (v ≠ 0 && w ≠ 0)
-    decref v
-    decref w
-    let (iv, v0, v1) ← swapCofactor v y
-    let (iw, w0, w1) ← swapCofactor w y
-    M.assert (y ≤ iv && y ≤ iw)
-    M.assert (y = iv || y = iw)
-    let (v0, v1) := if v < 0 && y = iv then (-v0, -v1) else (v0, v1)
-    let p ← findOrAdd y v0 w0
-    let q ← findOrAdd y v1 w1
-    M.assert (0 ≤ q)
-    M.assert (p ≠ q)
-    let lp ← lowHighLevel p
-    let lq ← lowHighLevel q
-    let fresh := (if lp = y then [p.natAbs] else []) ++ (if lq = y then [q.natAbs] else [])
-    setNode u ⟨x, p, q⟩
-    incref p
-    incref q
-    let (g, xf) ← moveDep findOrAdd x y done rest
+    if done.contains u then moveDep x y done rest else
+    let fresh ← moveDepStep x y u v w
+    let (g, xf) ← moveDep x y done rest
     return (pushNew (pushNew g v.natAbs) w.natAbs, fresh ++ xf)
 
 /-- `var_at_level(level)` -/
 def varAtLevel (i : Int) : M String := do
   let m ← M.get
-  if i < 0 then M.throw .value
+  if i < 0 then M.throw .value else
   M.ofOption .value (m.tbl.l2v[i.toNat]?)
 
 /-- `level_of_var(var)` -/
@@ -133,30 +145,42 @@ def levelOfVar (v : String) : M Nat := do
   let m ← M.get
   M.ofOption .value (m.tbl.vars[v]?)
 
-def checkNewLevels (x y : Nat) (lx ly : List (Nat × Int × Int)) (xfresh : List Nat) : M Unit := do
-  let m ← M.get
-  for (u, _, _) in lx do
+/-- `for u in levels[j]: if u not in self._succ: continue; i = self._succ[u][0]; assert ok(i)` -/
+def checkOld (m : Mgr) (ok : Nat → Bool) : List (Nat × Int × Int) → M Unit
+  | [] => pure ()
+  | (u, _, _) :: rest =>
     match m.tbl.succ[u]? with
-    | none => pure ()
-    | some n => M.assert (n.lvl = x || n.lvl = y)
-  for u in xfresh do
+    | none => checkOld m ok rest
+    | some n => do
+      M.assert (ok n.lvl)
+      checkOld m ok rest
+
+/-- `for u in xfresh: i = self._succ[u][0]; assert i == y` -/
+def checkFresh (m : Mgr) (y : Nat) : List Nat → M Unit
+  | [] => pure ()
+  | u :: rest => do
     let n ← M.ofOption .key (m.tbl.succ[u]?)
     M.assert (n.lvl = y)
-  for (u, _, _) in ly do
-    match m.tbl.succ[u]? with
-    | none => pure ()
-    | some n => M.assert (n.lvl = x)
+    checkFresh m y rest
 
-/-- body of `swap` after argument validation (levels `x < y` adjacent) -/
-def swapBody (x y : Nat) : M (Nat × Nat) := do
+def checkNewLevels (x y : Nat) (lx ly : List (Nat × Int × Int)) (xfresh : List Nat) : M Unit := do
   let m ← M.get
-  let oldsize := m.len
-  let (ox, oy) ← takeSwapOrders x y
+  checkOld m (fun l => l = x || l = y) lx
+  checkFresh m y xfresh
+  checkOld m (fun l => l = x) ly
+
+/-- the node surgery of `swap`: the five loops before the variables are exchanged -/
+def swapNodes (x y : Nat) (ox oy : List Nat) :
+    M (List (Nat × Int × Int) × List (Nat × Int × Int) × List Nat × List Nat) := do
   let lx ← popLevel x ox
   let ly ← popLevel y oy
   moveUp x y ly
   let done ← moveIndep x y lx
-  let (garbage, xfresh) ← moveDep (fun i v w => findOrAdd i v w) x y done lx
+  let (garbage, xfresh) ← moveDep x y done lx
+  return (lx, ly, garbage, xfresh)
+
+/-- `vars[vx] = y; vars[vy] = x; _level_to_var[y] = vx; _level_to_var[x] = vy; _ite_table = dict()` -/
+def exchangeNames (x y : Nat) : M Unit := do
   let vx ← varAtLevel x
   M.modify fun m => { m with tbl := { m.tbl with vars := m.tbl.vars.insert vx y } }
   let vy ← varAtLevel y
@@ -165,11 +189,23 @@ def swapBody (x y : Nat) : M (Nat × Nat) := do
       vars := m.tbl.vars.insert vy x
       l2v := (m.tbl.l2v.insert y vx).insert x vy }
     cache := {} }
+
+/-- `swap` once the iteration orders `ox`, `oy` of the two level sets are fixed -/
+def swapWith (x y : Nat) (oldsize : Nat) (ox oy : List Nat) : M (Nat × Nat) := do
+  let (lx, ly, garbage, xfresh) ← swapNodes x y ox oy
+  exchangeNames x y
   collectGarbage (some (garbage.map (fun (k : Nat) => (k : Int))))
   let m ← M.get
   let newsize := m.len
   checkNewLevels x y lx ly xfresh
   return (oldsize, newsize)
+
+/-- body of `swap` after argument validation (levels `x < y` adjacent) -/
+def swapBody (x y : Nat) : M (Nat × Nat) := do
+  let m ← M.get
+  let oldsize := m.len
+  let (ox, oy) ← takeSwapOrders x y
+  swapWith x y oldsize ox oy
 
 def resolveVL (a : VarOrLevel) : M Int := do
   let m ← M.get
@@ -183,12 +219,13 @@ def swap (xa ya : VarOrLevel) (given : Bool) : M (Nat × Nat) := do
   let x ← resolveVL xa
   let y ← resolveVL ya
   let m ← M.get
-  if !(0 ≤ x && x < m.nvars) then M.throw .value
-  if !(0 ≤ y && y < m.nvars) then M.throw .value
-  let (x, y) := if x > y then (y, x) else (x, y)
-  if x ≥ y then M.throw .value
-  if y - x ≠ 1 then M.throw .value
-  swapBody x.toNat y.toNat
+  if !(0 ≤ x && x < m.nvars) then M.throw .value else
+  if !(0 ≤ y && y < m.nvars) then M.throw .value else
+  let lo := if x > y then y else x
+  let hi := if x > y then x else y
+  if lo ≥ hi then M.throw .value else
+  if hi - lo ≠ 1 then M.throw .value else
+  swapBody lo.toNat hi.toNat
 
 /-- dict update keeping insertion order -/
 def assocSet (l : List (Nat × Nat)) (k v : Nat) : List (Nat × Nat) :=
@@ -222,7 +259,7 @@ def argMin : List (Nat × Nat) → Option Nat
 /-- `_reorder_var(bdd, var, levels)` -/
 def reorderVar (var : String) : M Nat := do
   let m ← M.get
-  if !m.tbl.vars.contains var then M.throw .value
+  if !m.tbl.vars.contains var then M.throw .value else
   let len0 := m.len
   M.assert (0 < m.nvars)
   let n := m.nvars - 1
@@ -250,37 +287,63 @@ def takeSiftOrder : M (List String) := do
     then return names else M.throw .sched
   | _ :: _ => M.throw .sched
 
+/-- `for var in names: _reorder_var(bdd, var, levels)` -/
+def siftVars : List String → M Unit
+  | [] => pure ()
+  | var :: rest => do
+    let _ ← reorderVar var
+    siftVars rest
+
 /-- `_apply_sifting(bdd)` -/
 def applySifting : M Unit := do
   collectGarbage none
   let m ← M.get
   let n := m.len
   let names ← takeSiftOrder
-  if names.isEmpty then M.throw .other   -- `m` unbound in the Python code
-  for var in names do
-    let _ ← reorderVar var
+  if names.isEmpty then M.throw .other else  -- `m` unbound in the Python code
+  siftVars names
   let m ← M.get
   M.assert (m.len ≤ n)
 
+/-- `for root in bdd.roots: if root not in bdd: raise ValueError` -/
+def checkRootsL (m : Mgr) : List Int → M Unit
+  | [] => pure ()
+  | r :: rest => if !m.mem r then M.throw .value else checkRootsL m rest
+
 def checkRoots : M Unit := do
   let m ← M.get
-  for r in m.roots do
-    if !m.mem r then M.throw .value
+  checkRootsL m m.roots
+
+/-- one comparison of the bubble sort: levels `i`, `i+1` -/
+def sortStep (order : List (String × Int)) (i : Nat) : M Unit := do
+  checkRoots
+  let x ← varAtLevel i
+  let y ← varAtLevel (i + 1)
+  let p ← M.ofOption .key (order.lookup x)
+  let q ← M.ofOption .key (order.lookup y)
+  if p > q then
+    let _ ← swap (.level i) (.level (i + 1)) true
+
+/-- `for i in range(n - 1)` -/
+def sortInner (order : List (String × Int)) : List Nat → M Unit
+  | [] => pure ()
+  | i :: rest => do
+    sortStep order i
+    sortInner order rest
+
+/-- `for k in range(n)` -/
+def sortOuter (order : List (String × Int)) (n : Nat) : Nat → M Unit
+  | 0 => pure ()
+  | k+1 => do
+    sortInner order (List.range (n - 1))
+    sortOuter order n k
 
 /-- `_sort_to_order(bdd, order)` -/
 def sortToOrder (order : List (String × Int)) : M Unit := do
   let m ← M.get
-  if m.nvars ≠ order.length then M.throw .value
+  if m.nvars ≠ order.length then M.throw .value else
   let n := order.length
-  for _k in List.range n do
-    for i in List.range (n - 1) do
-      checkRoots
-      let x ← varAtLevel i
-      let y ← varAtLevel (i + 1)
-      let p ← M.ofOption .key (order.lookup x)
-      let q ← M.ofOption .key (order.lookup y)
-      if p > q then
-        let _ ← swap (.level i) (.level (i + 1)) true
+  sortOuter order n n
 
 /-- `reorder(bdd, order)` -/
 def reorder (order : Option (List (String × Int))) : M Unit :=
@@ -288,15 +351,21 @@ def reorder (order : Option (List (String × Int))) : M Unit :=
   | none => applySifting
   | some o => sortToOrder o
 
+/-- one pair of `reorder_to_pairs` -/
+def pairStep (x y : String) : M Unit := do
+  let jx ← levelOfVar x
+  let jy ← levelOfVar y
+  let k := if jx ≤ jy then jy - jx else jx - jy
+  M.assert (0 < k)
+  if k ≠ 1 then
+    let (jx, jy) := if jx > jy then (jy, jx) else (jx, jy)
+    let _ ← shift jx (jy - 1)
+
 /-- `reorder_to_pairs(bdd, pairs)` -/
-def reorderToPairs (pairs : List (String × String)) : M Unit := do
-  for (x, y) in pairs do
-    let jx ← levelOfVar x
-    let jy ← levelOfVar y
-    let k := if jx ≤ jy then jy - jx else jx - jy
-    M.assert (0 < k)
-    if k ≠ 1 then
-      let (jx, jy) := if jx > jy then (jy, jx) else (jx, jy)
-      let _ ← shift jx (jy - 1)
+def reorderToPairs : List (String × String) → M Unit
+  | [] => pure ()
+  | (x, y) :: rest => do
+    pairStep x y
+    reorderToPairs rest
 
 end DD
